@@ -18,6 +18,69 @@ iteration yields an extra, wrapped value.  For `step = 1` (one- and two-argument
 the comptime form for `n < 2^63`) the hypothesis always holds and is not assumed. -/
 namespace GuppyVerif.Range
 
+/-- **C18 (the specification is Python's range)**: independent reading of `pyRange`, in the words
+    of the docstring of `range` in iter.py: the yielded numbers are exactly the `start + i*step`
+    that are `< stop` (ascending) resp. `> stop` (descending). -/
+theorem pyRange_mem_iff (start stop step x : Int) (hne : step ≠ 0) :
+    x ∈ pyRange start stop step ↔
+      ∃ i : Nat, x = start + (i : Int) * step ∧ (0 < step → x < stop) ∧ (step < 0 → stop < x) := by
+  unfold pyRange
+  simp only [List.mem_map, List.mem_range]
+  rcases Int.lt_or_gt_of_ne hne with hs | hs
+  · have hns : ¬ (0 < step) := by omega
+    constructor
+    · rintro ⟨i, hi, rfl⟩
+      refine ⟨i, rfl, fun h => absurd h hns, fun _ => ?_⟩
+      by_cases he : stop < start
+      · obtain ⟨m, hm, hlast, _⟩ := pyLen_down hs he
+        have : (m : Int) * step ≤ (i : Int) * step :=
+          Int.mul_le_mul_of_nonpos_right (by omega) (Int.le_of_lt hs)
+        omega
+      · rw [pyLen_down_empty hs (Int.not_lt.mp he)] at hi; omega
+    · rintro ⟨i, rfl, _, h⟩
+      have hx := h hs
+      have hi0 : (i : Int) * step ≤ 0 :=
+        Int.mul_nonpos_of_nonneg_of_nonpos (Int.natCast_nonneg i) (Int.le_of_lt hs)
+      obtain ⟨m, hm, _, hend⟩ := pyLen_down hs (by omega : stop < start)
+      refine ⟨i, ?_, rfl⟩
+      rw [hm]
+      apply Classical.byContradiction
+      intro hc
+      have : (i : Int) * step ≤ ((m : Int) + 1) * step :=
+        Int.mul_le_mul_of_nonpos_right (by omega) (Int.le_of_lt hs)
+      omega
+  · have hns : ¬ (step < 0) := by omega
+    constructor
+    · rintro ⟨i, hi, rfl⟩
+      refine ⟨i, rfl, fun _ => ?_, fun h => absurd h hns⟩
+      by_cases he : start < stop
+      · obtain ⟨m, hm, hlast, _⟩ := pyLen_up hs he
+        have : (i : Int) * step ≤ (m : Int) * step :=
+          Int.mul_le_mul_of_nonneg_right (by omega) (Int.le_of_lt hs)
+        omega
+      · rw [pyLen_up_empty hs (Int.not_lt.mp he)] at hi; omega
+    · rintro ⟨i, rfl, h, _⟩
+      have hx := h hs
+      have hi0 : 0 ≤ (i : Int) * step :=
+        Int.mul_nonneg (Int.natCast_nonneg i) (Int.le_of_lt hs)
+      obtain ⟨m, hm, _, hend⟩ := pyLen_up hs (by omega : start < stop)
+      refine ⟨i, ?_, rfl⟩
+      rw [hm]
+      apply Classical.byContradiction
+      intro hc
+      have : ((m : Int) + 1) * step ≤ (i : Int) * step :=
+        Int.mul_le_mul_of_nonneg_right (by omega) (Int.le_of_lt hs)
+      omega
+
+example : (7 : Int) ∈ pyRange 1 9 3 ∧ (3 : Int) ≠ 0 ∧ ¬ ((10 : Int) ∈ pyRange 1 9 3) := by decide
+
+/-- … and they come in order: the `i`-th element is `start + i*step`. -/
+theorem pyRange_getElem (start stop step : Int) (i : Nat) (h : i < (pyRange start stop step).length) :
+    (pyRange start stop step)[i] = start + (i : Int) * step := by
+  simp [pyRange]
+
+example : (pyRange 1 9 3).length = 3 ∧ (pyRange 1 9 3)[2]! = 7 := by decide
+
 /-- **C18 (three-argument form), partial**: for all 64-bit `start`, `stop`, `step ≠ 0` such
     that `start + len*step` does not overflow, driving `range(start, stop, step)` with any
     fuel `≥ len` yields exactly Python's `list(range(start, stop, step))`, and the iterator has
